@@ -6,10 +6,12 @@ cd $wt || exit 2
 git diff -- src > $out/patch.diff
 cp demo_*.py $out/ 2>/dev/null
 demo=$(ls demo_*.py | head -1)
+rebuild() { if grep -q "extension.pyx" $out/patch.diff; then /var/tmp/seedprompts2/build_ext.sh $wt > /dev/null 2>&1; fi; }
+rebuild
 echo "== demo WITH change"; PYTHONPATH=$wt/src timeout 600 /venv/bin/python $demo > $out/demo_with.log 2>&1; rc_with=$?; tail -2 $out/demo_with.log
-git diff -- src > /tmp/.seed_tmp_patch.$$ && git apply -R /tmp/.seed_tmp_patch.$$
+git diff -- src > /tmp/.seed_tmp_patch.$$ && git apply -R /tmp/.seed_tmp_patch.$$; rebuild
 echo "== demo WITHOUT change"; PYTHONPATH=$wt/src timeout 600 /venv/bin/python $demo > $out/demo_without.log 2>&1; rc_without=$?; tail -2 $out/demo_without.log
-git apply /tmp/.seed_tmp_patch.$$; rm -f /tmp/.seed_tmp_patch.$$
+git apply /tmp/.seed_tmp_patch.$$; rm -f /tmp/.seed_tmp_patch.$$; rebuild
 echo "== existing tests WITH change: $tests"
 PYTHONPATH=$wt/src timeout 3000 /venv/bin/python -m pytest -q -p no:cacheprovider -n 6 $tests 2>&1 | grep -E "passed|failed|FAILED" > $out/tests_with.log; cat $out/tests_with.log | tail -6
 echo "demo rc with=$rc_with without=$rc_without"
